@@ -114,7 +114,7 @@ fn main() {
             r.evaluations = 1;
             let res = match case["kind"].as_str() {
                 Some("c08") => c08::replay(&case, esm),
-                Some("c05text") => c05text::replay(&case),
+                Some("c05text") | Some("c05files") => c05text::replay(&case),
                 _ => Some(json!({"signature": "bad-replay", "message": "unknown replay kind"})),
             };
             if let Some(f) = res {
